@@ -2,12 +2,13 @@
    quantities with a reference unit: inside the envelope the property names
    (every naturally arising magnitude between 1e-15 and 1e17 — the ratio of the
    two unit scales, the operands, the right operand expressed in the left
-   operand's unit, the quotient — divisors non-zero) conversion, + - / and the
-   comparisons across units return a value.  Over the model of fpdec::Decimal.
+   operand's unit, the quotient — divisors non-zero) conversion, + - /, the
+   comparisons across units and the derived products / quotients (natural-unit
+   and _fit path) and the rate operations return a value.  Over the model of fpdec::Decimal.
    Only statements; every proof is `exact <lemma>`. *)
 From Coq Require Import Reals ZArith List.
 From QV Require Import Rt.Prelude Rt.Amount Rt.Quantity Gen.Prefixes Gen.Kernels Amount.DecModel Amount.Dec Amount.DecAcc
-  Proofs.Laws Proofs.Kernel Proofs.AccDec Proofs.EnvDec.
+  Proofs.Laws Proofs.Kernel Proofs.C09 Proofs.Derived Proofs.AccDec Proofs.EnvDec.
 From QV Require Amount.Laws.
 Local Open Scope R_scope.
 
@@ -45,6 +46,41 @@ Theorem DEC_C18_envelope_cmp : forall (S : QBase DEC) (x y : Qt S),
   exists c, HasRefUnit_partial_cmp S x y = Ok (Some c) /\ HasRefUnit_eq S x y = Ok (match c with Eq => true | _ => false end).
 Proof. exact env_cmp. Qed.
 
+(** derived products and quotients (both paths: natural unit and _fit), for any operation of the decimal
+    type that is accurate ([dop_rel]) and total below 1e19 ([dop_total]) - which * and / are *)
+Theorem DEC_C18_envelope_derived : forall (op : dec -> dec -> res dec) (rop : R -> R -> R) (okr : dec -> Prop),
+  dop_rel op rop okr -> dop_total op rop okr ->
+  forall (R0 : QFull DEC), (forall m, q_fit R0 m = HasRefUnit__fit R0 m) -> In (u_ref_unit R0) (u_iter R0) ->
+  forall su sv a b : dec, dfit su -> dfit sv -> dfit a -> dfit b -> okr sv -> okr b ->
+  Rabs (rop (dval su) (dval sv)) <= env_hi -> Rabs (rop (dval a) (dval b)) <= env_hi ->
+  Rabs (rop (dval a) (dval b) * rop (dval su) (dval sv)) <= env_hi ->
+  (forall w, In w (u_iter R0) ->
+     dfit (u_scale R0 w) /\ env_lo <= Rabs (dval (u_scale R0 w)) /\
+     Rabs (rop (dval a) (dval b) * rop (dval su) (dval sv) / dval (u_scale R0 w)) <= env_hi) ->
+  exists z, @derived_nf DEC op R0 su sv a b = Ok z.
+Proof. exact env_derived. Qed.
+
+Theorem DEC_C18_envelope_operations :
+  dop_total dec_mul Rmult (fun _ => True) /\ dop_total dec_div Rdiv (fun y => dval y <> 0).
+Proof. exact (conj mul_dop_total div_dop_total). Qed.
+
+(** rate operations: after the ratio value / (1 unit) - a cross-unit division, see DEC_C18_envelope_div - one division and one multiplication *)
+Theorem DEC_C18_envelope_rate_mul : forall (TQ : QBase DEC) (PQ : QFull DEC) (r : rate DEC) (q : Qt PQ) (x1 : dec),
+  q_div PQ q (q_new PQ (a_one DEC) (rt_per_unit r)) = Ok x1 ->
+  dfit x1 -> dfit (rt_per_unit_multiple r) -> Amount.Laws.dec_ok (rt_term_amount r) -> dval (rt_per_unit_multiple r) <> 0 ->
+  Rabs (dval x1 / dval (rt_per_unit_multiple r)) <= env_hi -> Rabs (dval (rt_term_amount r)) <= env_hi ->
+  Rabs (dval (rt_term_amount r) * (dval x1 / dval (rt_per_unit_multiple r))) <= env_hi ->
+  exists y, Rate_mul TQ PQ r q = Ok y /\ tmpl_Mul_Qty_Rate PQ TQ q r = Ok y.
+Proof. exact env_rate_mul. Qed.
+
+Theorem DEC_C18_envelope_qty_div_rate : forall (TQ : QFull DEC) (PQ : QBase DEC) (q : Qt TQ) (r : rate DEC) (x1 : dec),
+  q_div TQ q (q_new TQ (a_one DEC) (rt_term_unit r)) = Ok x1 ->
+  dfit x1 -> dfit (rt_term_amount r) -> Amount.Laws.dec_ok (rt_per_unit_multiple r) -> dval (rt_term_amount r) <> 0 ->
+  Rabs (dval x1 / dval (rt_term_amount r)) <= env_hi -> Rabs (dval (rt_per_unit_multiple r)) <= env_hi ->
+  Rabs (dval (rt_per_unit_multiple r) * (dval x1 / dval (rt_term_amount r))) <= env_hi ->
+  exists y, tmpl_Div_Qty_Rate TQ PQ q r = Ok y.
+Proof. exact env_qty_div_rate. Qed.
+
 (** the envelope's constants *)
 Theorem DEC_C18_envelope_constants : env_lo = / 1000000000000000 /\ env_hi = 100000000000000000 /\
   (forall r, in_env r <-> env_lo <= Rabs r <= env_hi).
@@ -54,4 +90,8 @@ Print Assumptions DEC_C18_envelope_convert.
 Print Assumptions DEC_C18_envelope_add_sub.
 Print Assumptions DEC_C18_envelope_div.
 Print Assumptions DEC_C18_envelope_cmp.
+Print Assumptions DEC_C18_envelope_derived.
+Print Assumptions DEC_C18_envelope_operations.
+Print Assumptions DEC_C18_envelope_rate_mul.
+Print Assumptions DEC_C18_envelope_qty_div_rate.
 Print Assumptions DEC_C18_envelope_constants.
